@@ -107,6 +107,8 @@ def run(ctx):
                ("1 group (2,1), freq 2 start 4, 6 calls, hyper", [G([1, 1, 2], [2, 2, 2], start=4, graft=True)], 6, (), hm)]
     sp.run_mc(ctx, mc, [])
     tasks = sp.gen_tasks(ctx, rng, 14 if quick else 80, 14 if quick else 40, make_groups, 8, (), ("mom", "b1", "wd", "lr"))
+    # bounded-exhaustive: every behaviour of depth 4 of a 2-param group around the start / refresh boundary
+    tasks += sp.exhaustive_tasks(ctx, rng, [family.draw_group(rng, "m2x2", kind="shampoo", freq=2, start=3)], 4 if quick else 5, (), ())
     sp.run_rt(ctx, tasks, owns, "update_rule")
     # group independence (bitwise) on the two-group behaviours
     two = [(d, b) for d, b, _ in tasks if len(d["groups"]) == 2]
